@@ -544,6 +544,116 @@ package evaluator
 //@   loop 1 step called(prev(ncalls) + 1, "next") && arg1(prev(ncalls) + 1) == env && arg2(prev(ncalls) + 1) == prev(acc) && arg4(prev(ncalls) + 1) == chainArg && arg5(prev(ncalls) + 1) == kwargs && len(sliceArg(prev(ncalls) + 1)) == len(args) + 1
 //@   loop 1 step !isErrT(result(prev(ncalls) + 1)) && acc == result(prev(ncalls) + 1)
 //
+//
+// ---- C04: chain contexts (literal-call / variable-call form) ------------------------------------------
+// calls through `next` are logged with arg1 = env, arg2 = receiver, arg3 = chain argument, sliceArg = args,
+// arg4 = kwargs.
+//@ props C04 C07
+//@ func evaluator.literalCallLonelyChainMiddleware$1(env, recv, chainArg, args, kwargs) res
+//@   requires isVal(recv) && next != nil
+//@   ensures  isNilT(recv) ==> ncalls == 0 && res == recv
+//@   ensures  !isNilT(recv) ==> ncalls == 1 && called(0, "next") && arg1(0) == env && arg2(0) == recv && arg3(0) == chainArg && sliceArg(0) == args && arg4(0) == kwargs && res == result(0)
+//@   assigns  EC
+//@ func evaluator.literalCallThoughtfulChainMiddleware$1(env, recv, chainArg, args, kwargs) res
+//@   requires isVal(recv) && next != nil
+//@   ensures  ncalls == 1 && called(0, "next") && arg1(0) == env && arg2(0) == recv && arg3(0) == chainArg && sliceArg(0) == args && arg4(0) == kwargs
+//@   ensures  isErrT(result(0)) || isNilT(result(0)) ==> res == recv
+//@   ensures  !isErrT(result(0)) && !isNilT(result(0)) ==> res == result(0)
+//@   assigns  EC
+//@ func evaluator.literalCallNothingMiddleware$1(env, recv, chainArg, args, kwargs) res
+//@   requires next != nil
+//@   ensures  ncalls == 1 && called(0, "next") && arg1(0) == env && arg2(0) == recv && arg3(0) == chainArg && sliceArg(0) == args && arg4(0) == kwargs && res == result(0)
+//@   assigns  EC
+//@ func evaluator.squashNilLiteralCallListChainMiddleware$1(env, recv, chainArg, args, kwargs) res
+//@   requires isVal(recv) && isVal(chainArg) && next != nil && env != nil && kwargs != nil
+//@   assigns  EC
+//@   loop 1 invariant fresh(elems) && iter != nil
+//@   loop 1 step ncalls == prev(ncalls) + 2 && called(prev(ncalls), "evaluator.(*iterHandler).Next") && arg1(prev(ncalls)) == iter
+//@   loop 1 step called(prev(ncalls) + 1, "next") && arg1(prev(ncalls) + 1) == env && arg2(prev(ncalls) + 1) == result(prev(ncalls)) && arg3(prev(ncalls) + 1) == chainArg && sliceArg(prev(ncalls) + 1) == args && arg4(prev(ncalls) + 1) == kwargs
+//@   loop 1 step !isErrT(result(prev(ncalls) + 1))
+//@   loop 1 step isNilT(result(prev(ncalls) + 1)) ==> elems == prev(elems)
+//@   loop 1 step !isNilT(result(prev(ncalls) + 1)) ==> len(elems) == prev(len(elems)) + 1 && elems[prev(len(elems))] == result(prev(ncalls) + 1)
+//@   loop 1 step forall j int :: {elems[j]} 0 <= j && j < prev(len(elems)) ==> elems[j] == prev(elems[j])
+//@ func evaluator.keepNilLiteralCallListChainMiddleware$1(env, recv, chainArg, args, kwargs) res
+//@   requires isVal(recv) && isVal(chainArg) && next != nil && env != nil && kwargs != nil
+//@   assigns  EC
+//@   loop 1 invariant fresh(elems) && iter != nil
+//@   loop 1 step ncalls == prev(ncalls) + 2 && called(prev(ncalls), "evaluator.(*iterHandler).Next") && arg1(prev(ncalls)) == iter
+//@   loop 1 step called(prev(ncalls) + 1, "next") && arg1(prev(ncalls) + 1) == env && arg2(prev(ncalls) + 1) == result(prev(ncalls)) && arg3(prev(ncalls) + 1) == chainArg && sliceArg(prev(ncalls) + 1) == args && arg4(prev(ncalls) + 1) == kwargs
+//@   loop 1 step !isErrT(result(prev(ncalls) + 1))
+//@   loop 1 step len(elems) == prev(len(elems)) + 1 && elems[prev(len(elems))] == result(prev(ncalls) + 1)
+//@   loop 1 step forall j int :: {elems[j]} 0 <= j && j < prev(len(elems)) ==> elems[j] == prev(elems[j])
+// reduce ($): the call's receiver is the fresh pair [accumulator, element]; a failed call ends the chain
+//@ func evaluator.literalCallReduceChainMiddleware$1(env, recv, chainArg, args, kwargs) res
+//@   requires isVal(recv) && isVal(chainArg) && next != nil && env != nil && kwargs != nil
+//@   assigns  EC
+//@   loop 1 invariant iter != nil && isVal(acc)
+//@   loop 1 invariant ncalls == 1 ==> acc == chainArg
+//@   loop 1 step ncalls == prev(ncalls) + 2 && called(prev(ncalls), "evaluator.(*iterHandler).Next") && arg1(prev(ncalls)) == iter
+//@   loop 1 step called(prev(ncalls) + 1, "next") && arg1(prev(ncalls) + 1) == env && arg3(prev(ncalls) + 1) == chainArg && sliceArg(prev(ncalls) + 1) == args && arg4(prev(ncalls) + 1) == kwargs
+//@   loop 1 step isT(arg2(prev(ncalls) + 1), *object.PanArr) && len(as(arg2(prev(ncalls) + 1), *object.PanArr).Elems) == 2 && as(arg2(prev(ncalls) + 1), *object.PanArr).Elems[0] == prev(acc) && as(arg2(prev(ncalls) + 1), *object.PanArr).Elems[1] == result(prev(ncalls))
+//@   loop 1 step !isErrT(result(prev(ncalls) + 1)) && acc == result(prev(ncalls) + 1)
+// thoughtful reduce (~$): a nil or failed result leaves the accumulator as it was (the receiver of acc.prop(x) is acc)
+//@ func evaluator.literalCallThoughtfulReduceChainMiddleware$1(env, recv, chainArg, args, kwargs) res
+//@   requires isVal(recv) && isVal(chainArg) && next != nil && env != nil && kwargs != nil
+//@   assigns  EC
+//@   loop 1 invariant iter != nil && isVal(acc)
+//@   loop 1 invariant ncalls == 1 ==> acc == chainArg
+//@   loop 1 step ncalls == prev(ncalls) + 2 && called(prev(ncalls), "evaluator.(*iterHandler).Next") && arg1(prev(ncalls)) == iter
+//@   loop 1 step called(prev(ncalls) + 1, "next") && arg1(prev(ncalls) + 1) == env && arg3(prev(ncalls) + 1) == chainArg && sliceArg(prev(ncalls) + 1) == args && arg4(prev(ncalls) + 1) == kwargs
+//@   loop 1 step isT(arg2(prev(ncalls) + 1), *object.PanArr) && len(as(arg2(prev(ncalls) + 1), *object.PanArr).Elems) == 2 && as(arg2(prev(ncalls) + 1), *object.PanArr).Elems[0] == prev(acc) && as(arg2(prev(ncalls) + 1), *object.PanArr).Elems[1] == result(prev(ncalls))
+//@   loop 1 step isErrT(result(prev(ncalls) + 1)) || isNilT(result(prev(ncalls) + 1)) ==> acc == prev(acc)
+//@   loop 1 step !isErrT(result(prev(ncalls) + 1)) && !isNilT(result(prev(ncalls) + 1)) ==> acc == result(prev(ncalls) + 1)
+//
+// ---- C04: which middlewares a chain context selects (all three call forms) ---------------------------------
+//@ props C04
+//@ spec macro litMain(c ast.MainChain) evaluator._LiteralCallMiddleware = c == ast.List ? funcref("evaluator.squashNilLiteralCallListChainMiddleware") : (c == ast.Reduce ? funcref("evaluator.literalCallReduceChainMiddleware") : funcref("evaluator.literalCallNothingMiddleware"))
+//@ spec macro litAdd(c ast.AdditionalChain) evaluator._LiteralCallMiddleware = c == ast.Lonely ? funcref("evaluator.literalCallLonelyChainMiddleware") : (c == ast.Thoughtful ? funcref("evaluator.literalCallThoughtfulChainMiddleware") : funcref("evaluator.literalCallNothingMiddleware"))
+//@ spec macro propMain(c ast.MainChain) evaluator._PropCallMiddleware = c == ast.List ? funcref("evaluator.squashNilPropCallListChainMiddleware") : (c == ast.Reduce ? funcref("evaluator.propCallReduceChainMiddleware") : funcref("evaluator.propCallNothingMiddleware"))
+//@ spec macro propAdd(c ast.AdditionalChain) evaluator._PropCallMiddleware = c == ast.Lonely ? funcref("evaluator.propCallLonelyChainMiddleware") : (c == ast.Thoughtful ? funcref("evaluator.propCallThoughtfulChainMiddleware") : funcref("evaluator.propCallNothingMiddleware"))
+//@ func evaluator.newLiteralCallMainChainMiddleware(c) res
+//@   ensures res == litMain(c)
+//@   assigns nothing
+//@ func evaluator.newLiteralCallAdditionalChainMiddleware(c) res
+//@   ensures res == litAdd(c)
+//@   assigns nothing
+//@ func evaluator.newPropCallMainChainMiddleware(c) res
+//@   ensures res == propMain(c)
+//@   assigns nothing
+//@ func evaluator.newPropCallAdditionalChainMiddleware(c) res
+//@   ensures res == propAdd(c)
+//@   assigns nothing
+// merging wraps from the inside out: the handler built is middlewares[0](middlewares[1](...(next)))
+//@ func evaluator.mergeLiteralCallMiddlewares$1(next) res
+//@   requires forall j int :: {middlewares[j]} 0 <= j && j < len(middlewares) ==> middlewares[j] != nil
+//@   ensures  ncalls == len(middlewares)
+//@   ensures  forall k int :: {callee(k)} 0 <= k && k < ncalls ==> callee(k) == middlewares[len(middlewares) - 1 - k] && arg1(k) == (k == 0 ? next : result(k - 1))
+//@   ensures  res == (ncalls == 0 ? next : result(ncalls - 1))
+//@   assigns  EC
+//@   loop 1 invariant 0 - 1 <= i && i < len(middlewares) && ncalls == len(middlewares) - 1 - i && merged == (ncalls == 0 ? next : result(ncalls - 1))
+//@   loop 1 invariant forall k int :: {callee(k)} 0 <= k && k < ncalls ==> callee(k) == middlewares[len(middlewares) - 1 - k] && arg1(k) == (k == 0 ? next : result(k - 1))
+//@ func evaluator.mergePropCallMiddlewares$1(next) res
+//@   requires forall j int :: {middlewares[j]} 0 <= j && j < len(middlewares) ==> middlewares[j] != nil
+//@   ensures  ncalls == len(middlewares)
+//@   ensures  forall k int :: {callee(k)} 0 <= k && k < ncalls ==> callee(k) == middlewares[len(middlewares) - 1 - k] && arg1(k) == (k == 0 ? next : result(k - 1))
+//@   ensures  res == (ncalls == 0 ? next : result(ncalls - 1))
+//@   assigns  EC
+//@   loop 1 invariant 0 - 1 <= i && i < len(middlewares) && ncalls == len(middlewares) - 1 - i && merged == (ncalls == 0 ? next : result(ncalls - 1))
+//@   loop 1 invariant forall k int :: {callee(k)} 0 <= k && k < ncalls ==> callee(k) == middlewares[len(middlewares) - 1 - k] && arg1(k) == (k == 0 ? next : result(k - 1))
+// =@ keeps nil results; ~@ keeps them too and substitutes the receiver per element; ~$ (literal form) has its own
+// fold; every other context is main-chain middleware around additional-chain middleware
+//@ func evaluator.newLiteralCallChainMiddleware(chain) res
+//@   ensures  chain.Main == ast.List && chain.Additional == ast.Strict ==> res == funcref("evaluator.keepNilLiteralCallListChainMiddleware")
+//@   ensures  chain.Main == ast.List && chain.Additional == ast.Thoughtful ==> isClosure(res, "evaluator.mergeLiteralCallMiddlewares$1") && len(captured(res, "evaluator.mergeLiteralCallMiddlewares$1", "middlewares")) == 2 && captured(res, "evaluator.mergeLiteralCallMiddlewares$1", "middlewares")[0] == funcref("evaluator.keepNilLiteralCallListChainMiddleware") && captured(res, "evaluator.mergeLiteralCallMiddlewares$1", "middlewares")[1] == funcref("evaluator.literalCallThoughtfulChainMiddleware")
+//@   ensures  chain.Main == ast.Reduce && chain.Additional == ast.Thoughtful ==> res == funcref("evaluator.literalCallThoughtfulReduceChainMiddleware")
+//@   ensures  !(chain.Main == ast.List && (chain.Additional == ast.Strict || chain.Additional == ast.Thoughtful)) && !(chain.Main == ast.Reduce && chain.Additional == ast.Thoughtful) ==> isClosure(res, "evaluator.mergeLiteralCallMiddlewares$1") && len(captured(res, "evaluator.mergeLiteralCallMiddlewares$1", "middlewares")) == 2 && captured(res, "evaluator.mergeLiteralCallMiddlewares$1", "middlewares")[0] == litMain(chain.Main) && captured(res, "evaluator.mergeLiteralCallMiddlewares$1", "middlewares")[1] == litAdd(chain.Additional)
+//@   assigns  nothing
+//@ func evaluator.newChainMiddleware(chain) res
+//@   ensures  isClosure(res, "evaluator.mergePropCallMiddlewares$1")
+//@   ensures  chain.Main == ast.List && chain.Additional == ast.Strict ==> len(captured(res, "evaluator.mergePropCallMiddlewares$1", "middlewares")) == 2 && captured(res, "evaluator.mergePropCallMiddlewares$1", "middlewares")[0] == funcref("evaluator.keepNilPropCallListChainMiddleware") && captured(res, "evaluator.mergePropCallMiddlewares$1", "middlewares")[1] == funcref("evaluator.findPropMiddleware")
+//@   ensures  chain.Main == ast.List && chain.Additional == ast.Thoughtful ==> len(captured(res, "evaluator.mergePropCallMiddlewares$1", "middlewares")) == 3 && captured(res, "evaluator.mergePropCallMiddlewares$1", "middlewares")[0] == funcref("evaluator.keepNilPropCallListChainMiddleware") && captured(res, "evaluator.mergePropCallMiddlewares$1", "middlewares")[1] == funcref("evaluator.propCallThoughtfulChainMiddleware") && captured(res, "evaluator.mergePropCallMiddlewares$1", "middlewares")[2] == funcref("evaluator.findPropMiddleware")
+//@   ensures  !(chain.Main == ast.List && (chain.Additional == ast.Strict || chain.Additional == ast.Thoughtful)) ==> len(captured(res, "evaluator.mergePropCallMiddlewares$1", "middlewares")) == 3 && captured(res, "evaluator.mergePropCallMiddlewares$1", "middlewares")[0] == propMain(chain.Main) && captured(res, "evaluator.mergePropCallMiddlewares$1", "middlewares")[1] == propAdd(chain.Additional) && captured(res, "evaluator.mergePropCallMiddlewares$1", "middlewares")[2] == funcref("evaluator.findPropMiddleware")
+//@   assigns  nothing
 //@ global_inv iterSym != nil && iterSym.Value == "_iter" && nextSym != nil && nextSym.Value == "next"
 //@ props C04 C14
 //@ func evaluator.iterOf(env, obj) res, err
